@@ -59,7 +59,16 @@ txt += ("\nLessons that were turned into input classes everywhere they apply: in
         "a tolerance sitting exactly ON a cumulative Schmidt weight in exact arithmetic (ties decided without rounding slack), phase-structured Krylov data (i * real matrix\n"
         "with a real start vector: images alternate between exactly real and exactly imaginary), coefficient callables defined on the activity domain of an edge only,\n"
         "graphs whose augmenting paths / alternating trees are 600..3000 vertices deep (which exposed defect F12), and operator graphs with duplicated path\n"
-        "prefixes through identical operator lists whose twin nodes carry equal or different labels.\n\n"
+        "prefixes through identical operator lists whose twin nodes carry equal or different labels;\n"
+        "from round 8 (8 of 20 missed at first): MPO tensors assembled from STRUCTURED blocks (zero blocks, c*I + g*X, projectors, shifts: what hand-written automaton-form\n"
+        "operators look like, and what random blocks never are), operator bonds that funnel by more than d^2 from one bond to the next and strongly unequal tensor\n"
+        "dimensions in the single-step contractions, distinct charges that coincide modulo 2^32 / 2^16 / 2^53 and labels at the limits of their integer type, blocks\n"
+        "of extreme aspect ratio (98 x 2) carrying a weak singular value in a generic gauge (local dimension 7..8 for compress), localised real start vectors on maps that\n"
+        "are real only on the support of the start vector, accumulation HISTORIES on the edge level with all earlier operands re-verified after every step (an operand\n"
+        "adopted by reference is damaged by a later call in which it is not an argument), bounded progress on graphs with deep branching dead ends (which turned a\n"
+        "mutant classified as benign into a caught one), and the library's Ising automaton with site-dependent edge activity; re-running all seeds and mutants with\n"
+        "VERIF_SEED=1 exposed three catches that depended on the seed (directed workloads: zero-state histories in C02, symmetric sectors / converging runs in C10,\n"
+        "charge-diagonal MPOs in C01).\n\n"
         "Note on the repository suite: `test_krylov.py::test_eigh_krylov` fails in about 2 % of runs on the unchanged tree (12 of 600 seeded replays of its body, the\n"
         "same number before and after fix `3c1fa1a`): its tolerance on the second Ritz value is statistical. It is unrelated to any change made here.\n")
 d = open('/verif/DESIGN.md').read()
